@@ -7,6 +7,7 @@ import Driver.Plugins
 import Driver.File
 import Driver.Config
 import Driver.Chain
+import Driver.Plug
 import Std.Data.HashMap
 open Drv
 
@@ -130,4 +131,5 @@ def main (args : List String) : IO UInt32 := do
   | ["file"] => run ⟨({} : File.St), File.step⟩; return 0
   | ["config"] => run ⟨(), fun _ op res => ((), Config.step op res)⟩; return 0
   | ["chain"] => run ⟨(), fun _ op res => ((), Chain.step op res)⟩; return 0
+  | ["plug"] => run ⟨({} : Plug.St), Plug.step⟩; return 0
   | _ => IO.eprintln "usage: drv <engine> < trace"; return 2
